@@ -28,10 +28,15 @@ for q in plan.functions:
             s.set("timeout", 30000)
             for h in ob.hyps:
                 s.add(h)
+            goal, sks = smt.skolemize_goal(ob.goal)
             if ax:
                 for a in sums.sum_axioms():
                     s.add(a)
-            s.add(z3.Not(ob.goal))
+                for a in smt.sum_succ_instances([goal]):
+                    s.add(a)
+            for a in smt.manual_instances(ob.hyps, goal, sks):
+                s.add(a)
+            s.add(z3.Not(goal))
             t = time.time()
             r = s.check()
             print("   axioms=%s -> %s %.2fs %s" % (ax, r, time.time() - t, s.reason_unknown() if r == z3.unknown else ""))
